@@ -913,6 +913,148 @@ class SimThreadPool(SimPool):
     shares_state = True
 
 
+class _AsyncResult:
+    """multiprocessing.pool.AsyncResult / MapResult over SimFutures"""
+
+    def __init__(self, futs, single, callback=None, error_callback=None, chunked=False):
+        self._futs, self._single, self._cb, self._ecb, self._chunked = futs, single, callback, error_callback, chunked
+        self._fired = False
+
+    def ready(self):
+        return all(f.done() for f in self._futs)
+
+    def wait(self, timeout=None):
+        p = cur()
+        if p is not None and not self.ready():
+            p.kernel.block(self.ready, timeout=timeout, what='async-result')
+
+    def successful(self):
+        if not self.ready():
+            raise ValueError('not ready')
+        return all(f.exception(0) is None for f in self._futs)
+
+    def get(self, timeout=None):
+        self.wait(timeout)
+        if not self.ready():
+            import multiprocessing
+            raise multiprocessing.TimeoutError()
+        try:
+            vals = [f.result(0) for f in self._futs]
+        except BaseException as e:  # noqa: BLE001
+            if self._ecb and not self._fired:
+                self._fired = True
+                self._ecb(e)
+            raise
+        if self._chunked:
+            vals = [x for c in vals for x in c]
+        r = vals[0] if self._single else vals
+        if self._cb and not self._fired:
+            self._fired = True
+            self._cb(r)
+        return r
+
+
+class SimMPPool(SimPool):
+    """multiprocessing.Pool on Linux/fork: workers are forked when the pool is created; leaving the `with` block
+    terminates them (pending work is lost) unless close()+join() were called"""
+
+    def __init__(self, processes=None, initializer=None, initargs=(), maxtasksperchild=None, context=None):
+        SimPool.__init__(self, processes, None, initializer, initargs or ())
+        self.max_tasks_per_child = maxtasksperchild
+        self.closed = False
+        self._launch_all()
+
+    def _chunks(self, func, iterable, chunksize, star=False):
+        items = list(iterable)
+        if chunksize is None:
+            chunksize, extra = divmod(len(items), self.W * 4)
+            if extra:
+                chunksize += 1
+        chunksize = max(1, chunksize)
+        fn = _star_chunk if star else _map_chunk
+        return [self.submit(fn, func, items[i:i + chunksize]) for i in range(0, len(items), chunksize)]
+
+    def submit(self, fn, /, *args, **kwargs):
+        if self.closed:
+            raise ValueError('Pool not running')
+        return SimPool.submit(self, fn, *args, **kwargs)
+
+    def apply_async(self, func, args=(), kwds=None, callback=None, error_callback=None):
+        return _AsyncResult([self.submit(func, *args, **(kwds or {}))], True, callback, error_callback)
+
+    def apply(self, func, args=(), kwds=None):
+        return self.apply_async(func, args, kwds).get()
+
+    def map_async(self, func, iterable, chunksize=None, callback=None, error_callback=None):
+        return _AsyncResult(self._chunks(func, iterable, chunksize), False, callback, error_callback, chunked=True)
+
+    def map(self, func, iterable, chunksize=None):
+        return self.map_async(func, iterable, chunksize).get()
+
+    def starmap_async(self, func, iterable, chunksize=None, callback=None, error_callback=None):
+        return _AsyncResult(self._chunks(func, iterable, chunksize, star=True), False, callback, error_callback, chunked=True)
+
+    def starmap(self, func, iterable, chunksize=None):
+        return self.starmap_async(func, iterable, chunksize).get()
+
+    def imap(self, func, iterable, chunksize=1):
+        futs = self._chunks(func, iterable, chunksize)
+
+        def gen():
+            for f in futs:
+                yield from f.result()
+        return gen()
+
+    def imap_unordered(self, func, iterable, chunksize=1):
+        futs = self._chunks(func, iterable, chunksize)
+
+        def gen():
+            for f in _sim_as_completed(futs):
+                yield from f.result()
+        return gen()
+
+    def close(self):
+        self.closed = True
+        self.shutdown_flag = True
+        if cur() is not None:
+            self.k.seam('pool-close', '')
+
+    def join(self):
+        if not self.closed and not self.broken:
+            raise ValueError('Pool is still running')
+        if cur() is not None and self.workers:
+            self.k.block(lambda: all(w.state == 'done' for w in self.workers), what='pool-join')
+
+    def terminate(self):
+        k = self.k
+        self.closed = True
+        self.shutdown_flag = True
+        k.seam('pool-terminate', '')
+        lost = [t.idx for t in self.tasks if not t.future.done()]
+        if lost:
+            k.note('pool_terminated_with_pending_work', tasks=lost)
+            k.probes['pool_terminated_with_pending_work'] += 1
+        self.queue.clear()
+        for w in self.workers:
+            if w.state != 'done':
+                w.term_pending = True
+                if w.state == 'blocked':
+                    w.pred = lambda: True
+        k.block(lambda: all(w.state == 'done' for w in self.workers), what='pool-join')
+
+    def __exit__(self, *a):
+        self.terminate()
+        return False
+
+
+def _map_chunk(func, chunk):
+    return [func(x) for x in chunk]
+
+
+def _star_chunk(func, chunk):
+    return [func(*x) for x in chunk]
+
+
 def _sim_as_completed(fs, timeout=None):
     p = cur()
     if p is None:
@@ -975,6 +1117,14 @@ def _wrap_fs(name, kind, path_args=1):
             except TypeError:
                 detail = '?'
             k.seam(kind, detail)
+            if kind == 'copyfile' and k.cfg.get('capture_copies'):
+                # what a process copies (e.g. the case report an iteration obtained from its client) is observable output
+                try:
+                    if os.path.getsize(a[0]) < (1 << 20):
+                        with _real['open'](a[0], 'rb') as f:
+                            k.note('copyfile', src=k.norm_path(a[0]), dst=k.norm_path(a[1]), data=f.read(), task=p.task)
+                except (OSError, TypeError):
+                    pass
         return real(*a, **kw)
     shim.__name__ = real.__name__
     shim.__wrapped__ = real
@@ -1128,14 +1278,24 @@ def install():
         return _real['Popen.__init__'](self, *a, **kw)
     subprocess.Popen.__init__ = popen_init
 
+    import multiprocessing
     import multiprocessing.pool as _mpp
-    _real['mp.Pool.__init__'] = _mpp.Pool.__init__
+    _real['mp.pool.Pool'] = _mpp.Pool
+    _mpp.Pool = _pool_factory(SimMPPool, _mpp.Pool)
+    _real['mp.Pool'] = multiprocessing.Pool
 
-    def mp_pool_init(self, *a, **kw):
+    def mp_pool(*a, **kw):
         if cur() is not None:
-            raise SimFatal('unmodelled_concurrency', 'multiprocessing.Pool by a simulated process')
-        return _real['mp.Pool.__init__'](self, *a, **kw)
-    _mpp.Pool.__init__ = mp_pool_init
+            return SimMPPool(*a, **kw)
+        return _real['mp.Pool'](*a, **kw)
+    multiprocessing.Pool = mp_pool
+    _real['mp.Process.start'] = multiprocessing.Process.start
+
+    def mp_process_start(self):
+        if cur() is not None:
+            raise SimFatal('unmodelled_concurrency', 'multiprocessing.Process started by a simulated process')
+        return _real['mp.Process.start'](self)
+    multiprocessing.Process.start = mp_process_start
 
     # logging handler locks would be held across seam yields; one simulated process runs at a time
     import logging
